@@ -208,4 +208,21 @@ theorem C07_source_skeletons_mount :
     Gen.Skel.RootNode_Remove = Expected.Skel.RootNode_Remove :=
   ⟨rfl, rfl, rfl, rfl, rfl, rfl, rfl, rfl, rfl⟩
 
+/-- every error return of a skeleton goes through `ToError` -/
+def errorsConverted (sk : List (String × String)) : Bool :=
+  (sk.filter (·.1 == "return")).all fun r => r.2 == "return nil" || r.2 == "return ToError(err)"
+
+/-- Through the mount, the refusal of a page, journal or WAL write on a node without write
+    authority reaches the kernel as a permission error: the three write handlers return nothing but
+    `nil` or `ToError(err)`, and `ToError` maps the read-only refusal to EACCES (facts about the
+    skeletons regenerated from fuse/*.go on every run; before fix 04a19f9 the first conjunct was
+    false for the database handle, which returned the error unconverted: EIO). -/
+theorem C07_mount_write_refusals_are_permission_errors :
+    errorsConverted Gen.Skel.DatabaseHandle_Write = true ∧
+    errorsConverted Gen.Skel.JournalHandle_Write = true ∧
+    errorsConverted Gen.Skel.WALHandle_Write = true ∧
+    ("if", "err == litefs.ErrReadOnlyReplica") ∈ Gen.Skel.fn_ToError ∧
+    ("return", "return &Error{err: err, errno: fuse.ToErrno(syscall.EACCES)}") ∈ Gen.Skel.fn_ToError := by
+  decide
+
 end LiteFSVerif.C07
